@@ -97,6 +97,12 @@ impl Rng {
         (0..n).map(|_| self.u8()).collect()
     }
 
+    /// Random octets, length uniform in 0..max.
+    pub fn bytes_below(&mut self, max: usize) -> Vec<u8> {
+        let n = self.below(max);
+        self.bytes(n)
+    }
+
     pub fn shuffle<T>(&mut self, items: &mut [T]) {
         for i in (1..items.len()).rev() {
             let j = self.below(i + 1);
